@@ -321,7 +321,7 @@ class C02(Prop):
     level_note = ('What went wrong is read from the world\'s trace (which tests ran, which hooks raised, which child died '
                   'where, how much of each report got out), never from the runner\'s counters. Per-test layer hooks that '
                   'raise are C18\'s. A report lacking only its final newline may be read either way.')
-    rule = ('Non-trivial = layer subprocesses were involved and (a bad test ran in a child, or noise reached a report pipe, '
+    rule = ('Hypothesis worlds x mode x noise x child faults x (1/3) one selection option (-t, --only-level, --at-level, --layer, -u/-f). Non-trivial = layer subprocesses were involved and (a bad test ran in a child, or noise reached a report pipe, '
             'or a child fault was injected), or a spawn failure. Distinct by hash of the case.')
     assumptions = ('every generated module is discovered (tests pattern matches all of them)',)
     parts = (Seq(), Procs())
